@@ -66,17 +66,17 @@ func mergeTBStats(dst, src *tbStats) {
 }
 
 type tbHist struct {
-	w       *strings.Builder
-	rig     *Rig
-	r       *rand.Rand
-	st      *tbStats
-	maxSeat int
-	nextID  int
+	w          *strings.Builder
+	rig        *Rig
+	r          *rand.Rand
+	st         *tbStats
+	maxSeat    int
+	nextID     int
 	interval   int  // GameContinueInterval of this table (seconds): > 0 leaves a window between settlement and the continue handler
 	expectHand bool // the harness is inside tryOpen … playHand: a hand may be open
-	dead    bool // engine abandoned (refused open holds the lock for 30 s, hang, panic)
-	synth   *SynthBackend
-	planned []int64 // result planned for the running hand (by game index)
+	dead       bool // engine abandoned (refused open holds the lock for 30 s, hang, panic)
+	synth      *SynthBackend
+	planned    []int64 // result planned for the running hand (by game index)
 }
 
 func (h *tbHist) line(format string, a ...interface{}) {
@@ -116,11 +116,15 @@ func (h *tbHist) unexpectedHand() bool {
 	return false
 }
 
-func (h *tbHist) abort() {
+func (h *tbHist) abort() { h.drop("gate-timer-opened-a-hand-while-the-harness-was-between-hands") }
+
+// drop: the harness cannot tell what the engine did (or drove it somewhere the generator never goes on purpose): the
+// history ends here and nothing is judged on it
+func (h *tbHist) drop(why string) {
 	if h.dead {
 		return
 	}
-	h.line("tb abort gate-timer-opened-a-hand-while-the-harness-was-between-hands")
+	h.line("tb abort %s", why)
 	h.dead = true
 	h.st.Aborted++
 }
@@ -525,6 +529,9 @@ func (h *tbHist) playHand1() bool {
 	}
 	preSnaps := h.rig.snapCount()
 	gc := t.State.GameCount
+	// the gate as it stands while the hand runs (nobody touches it until the continue step): an open attempt during the
+	// hand may have left it set up under the very count the continue step will use
+	gateBefore := h.rig.gateObs()
 	for _, k := range h.r.Perm(len(ids)) {
 		err := h.rig.te.PlayerReady(pid(ids[k]))
 		if err != nil {
@@ -578,7 +585,13 @@ func (h *tbHist) playHand1() bool {
 		h.st.OpMix["blind-change-between-settlement-and-continue"]++
 	}
 	// continue (interval 0: synchronous in the hand's updater goroutine; interval 1: a second later)
-	done := waitFor(time.Duration(2+h.interval)*time.Second, func() bool {
+	preset := strings.HasPrefix(gateBefore, fmt.Sprintf("%d/", gc+1))
+	if preset {
+		// the count tells nothing (an open attempt during the hand left the gate set up under it): let the handler run —
+		// well inside the 2 s after which a set-up gate fires by itself — then compare the whole gate
+		time.Sleep(time.Duration(h.interval)*time.Second + 300*time.Millisecond)
+	}
+	done := preset || waitFor(time.Duration(2+h.interval)*time.Second, func() bool {
 		lt := h.table()
 		if lt.State.GameState != nil {
 			return false
@@ -601,7 +614,15 @@ func (h *tbHist) playHand1() bool {
 	case lt.State.Status == pokertable.TableStateStatus_TablePausing:
 		out = "paused"
 	case lt.State.Status == pokertable.TableStateStatus_TableGameStandby && g == gc+1:
-		out = "setup"
+		gateAfter := h.rig.gateObs()
+		switch {
+		case gateAfter != gateBefore:
+			out = "setup"
+		case strings.HasPrefix(gateBefore, fmt.Sprintf("%d/", gc+1)) && !strings.Contains(gateBefore, ":1,") && !strings.HasSuffix(gateBefore, ":1"):
+			// set up under this count before, nobody had signalled: a fresh set-up would look the same
+			h.drop("cannot-tell-whether-the-continue-step-set-the-gate-up")
+			return false
+		}
 	}
 	h.line("tb continue expired=0 | %s", out)
 	h.rec("continue", nil)
@@ -883,6 +904,7 @@ func genTBHistory(r *rand.Rand, st *tbStats, hid int, maxHands int) string {
 		return ""
 	}
 	h.rig = rig
+	defer rig.abandon()
 	st.Histories++
 	if h.interval > 0 {
 		st.OpMix["histories-with-a-continue-interval"]++
